@@ -2,7 +2,9 @@
    Statements only; every proof is `exact <lemma>`.  Two models:
      Wrapper  (Proofs/WrapperProofs.v): shared_guarded, shared_guarded_opt (enabled), ordered_guarded, and the
               handle classes of handles.hpp, for the four mutex kinds;
-     Deferred (Proofs/DeferredProofs.v): deferred_guarded.
+     Deferred (Proofs/DeferredProofs.v): deferred_guarded;
+     Deferred2 (Proofs/Deferred2Proofs.v): two deferred_guarded objects A, B of one type, with modification
+              functions of A that submit a modification to B while they run (x = false: A, x = true: B).
    The Wrapper theorems quantify over the configuration cf, any number of threads with any programs over the
    whole API and every schedule (R cf progs s).  Vocabulary (WrapperProofs): lx / lsh = exclusive / shared locks
    of the wrapper's mutex owned by a thread (live handles, guards of read / modify / load / store);
@@ -15,7 +17,7 @@
 From Coq Require Import List Arith ZArith Lia Bool.
 Import ListNotations.
 From GV Require Import Sched Events WrapperModel.
-From GV Require WrapperProofs DeferredModel DeferredProofs.
+From GV Require WrapperProofs DeferredModel DeferredProofs Deferred2Model Deferred2Proofs.
 Local Open Scope Z_scope.
 
 (* while a thread holds the mutex in shared mode nobody holds it exclusively (no exclusive handle, nobody
@@ -88,6 +90,35 @@ Theorem deferred_no_fault : forall m th progs (s : sys DeferredModel.glob Deferr
   DeferredProofs.R m th progs s -> DeferredModel.faulted (gl s) = false.
 Proof. exact DeferredProofs.def_no_fault. Qed.
 
+(* ---------- two deferred_guarded objects, nested submissions ---------- *)
+(* while a shared handle on object x is alive, no thread is inside an exclusive section of x: no functor runs on x,
+   whoever submitted it - also not the inner submission made by a modification function of the other object *)
+Theorem deferred2_rw_exclusion : forall m progs (s : sys Deferred2Model.glob2 Deferred2Model.loc2) x t,
+  Deferred2Proofs.R2 m progs s ->
+  (1 <= DeferredProofs.shl (DeferredProofs.locof (Deferred2Proofs.objls x (thr s)) t))%nat ->
+  forall u, DeferredProofs.holdsX (DeferredProofs.pcof (Deferred2Proofs.objls x (thr s)) u) = false.
+Proof. exact Deferred2Proofs.rw_exclusion2. Qed.
+(* ... and no step of any thread enters one: no modification of x starts while the handle is alive *)
+Theorem deferred2_no_mod_starts : forall m progs (s : sys Deferred2Model.glob2 Deferred2Model.loc2) x t u c l g' l' es,
+  Deferred2Proofs.R2 m progs s ->
+  (1 <= DeferredProofs.shl (DeferredProofs.locof (Deferred2Proofs.objls x (thr s)) t))%nat ->
+  nth_error (thr s) u = Some l -> Deferred2Model.tstep2 u c (gl s) l = Some (g', l', es) ->
+  DeferredProofs.holdsX (DeferredModel.at_ (Deferred2Proofs.objl x l')) = false.
+Proof. exact Deferred2Proofs.no_exclusive_starts2. Qed.
+(* a functor running on x owns x's mutex exclusively; nobody shares x, no other window on x's payload is open *)
+Theorem deferred2_exclusive : forall m progs (s : sys Deferred2Model.glob2 Deferred2Model.loc2) x t,
+  Deferred2Proofs.R2 m progs s ->
+  DeferredProofs.inbody (DeferredProofs.pcof (Deferred2Proofs.objls x (thr s)) t) = true ->
+  DeferredModel.owner (Deferred2Proofs.objg x (gl s)) = Some t /\
+  (forall u, DeferredProofs.shl (DeferredProofs.locof (Deferred2Proofs.objls x (thr s)) u) = 0%nat) /\
+  (forall u, DeferredProofs.inbody (DeferredProofs.pcof (Deferred2Proofs.objls x (thr s)) u) = true -> u = t) /\
+  (forall u, u <> t -> DeferredProofs.rdopen (DeferredProofs.pcof (Deferred2Proofs.objls x (thr s)) u) = false /\
+                       DeferredProofs.wropen (DeferredProofs.pcof (Deferred2Proofs.objls x (thr s)) u) = false).
+Proof. exact Deferred2Proofs.running_exclusive2. Qed.
+Theorem deferred2_no_fault : forall m progs (s : sys Deferred2Model.glob2 Deferred2Model.loc2) x,
+  Deferred2Proofs.R2 m progs s -> DeferredModel.faulted (Deferred2Proofs.objg x (gl s)) = false.
+Proof. exact Deferred2Proofs.no_fault2. Qed.
+
 (* ---------- non-vacuity ---------- *)
 Definition cf_s : config := Cfg FShared MShared true 3 [] false.
 Definition cf_p : config := Cfg FShared MPlain true 3 [] false.
@@ -128,4 +159,20 @@ Example ordered_read_and_load_share :
   WrapperProofs.holds_shared cf_o ord_readers 0 /\ WrapperProofs.holds_shared cf_o ord_readers 1 /\
   length (sharers (gl ord_readers)) = 2%nat /\
   tstep cf_o 2 0 (gl ord_readers) (WrapperProofs.locof (thr ord_readers) 2) = None.
+Proof. vm_compute. repeat split; auto. Qed.
+
+(* two objects: thread 0 holds a shared handle on B; thread 1 runs a nested modification function on A (its
+   functor has been invoked, A's mutex is its own) whose inner B.modify_detach found B busy and is being queued *)
+Definition nested_state :=
+  run Deferred2Model.glob2 Deferred2Model.loc2 Deferred2Model.tstep2
+      (Deferred2Model.init2 0 [[Deferred2Model.OnB (DeferredModel.LockShared 0)];
+                               [Deferred2Model.Nested 12 (DeferredModel.ModifyDetach 1) false 2]])
+      (rep 0 3 ++ rep 1 6).
+Example nested_submission_queued_behind_reader :
+  (1 <= DeferredProofs.shl (DeferredProofs.locof (Deferred2Proofs.objls true (thr nested_state)) 0))%nat /\
+  DeferredProofs.inbody (DeferredProofs.pcof (Deferred2Proofs.objls false (thr nested_state)) 1) = true /\
+  DeferredModel.owner (Deferred2Model.gA (gl nested_state)) = Some 1%nat /\
+  DeferredModel.owner (Deferred2Model.gB (gl nested_state)) = None /\
+  DeferredModel.queue (Deferred2Model.gB (gl nested_state)) = [0%nat] /\
+  DeferredProofs.holdsX (DeferredProofs.pcof (Deferred2Proofs.objls true (thr nested_state)) 1) = false.
 Proof. vm_compute. repeat split; auto. Qed.
